@@ -18,9 +18,10 @@ from harness import common
 
 PROP = 'C15'
 THEOREMS = ['C15_total', 'C15_valid', 'C15_opt', 'C15_mixed', 'C15_holds', 'C15_get_dtype_fits',
-            'C15_brute_opt_min', 'C15_brute_solve_optimal', 'C15_domain_or_known', 'C15_all_missing_refuted',
+            'C15_brute_opt_min', 'C15_brute_solve_optimal', 'C15_all_missing_empty', 'C15_all_missing_holds',
+            'C15_all_missing_regression_detected', 'C15_domain_or_known',
             'C15_negative_with_missing_refuted', 'C15_negative_needs_negative', 'C15_sentinel_overflow_refuted',
-            'C15_beyond_2p53_refuted', 'C15_all_missing_outcome', 'C15_negative_outcome']
+            'C15_beyond_2p53_refuted', 'C15_negative_outcome']
 HEADER_SPEC = ('From Coq Require Import List Bool ZArith.\nRequire Import GT.PyBase GT.MatchSpec.\n'
                'Import ListNotations.\nOpen Scope Z_scope.\n')
 HEADER_MODEL = HEADER_SPEC + 'Require Import GTgen.MatchGen GT.MatchModel.\n'
@@ -290,8 +291,25 @@ def case_term(case, res):
 
 # ------------------------------------------------------------------ known findings
 
+def all_findings():
+    return [f for f in common.known_findings(PROP)]
+
+
+def fixed_replays():
+    """Replays of the entries that are NOT open (status 'fixed: ...'): they excuse nothing and their class
+    predicate may be gone from MatchSpec.v; their inputs are simply run as ordinary cases, so the defect is
+    reported as a violation if it ever returns."""
+    out = []
+    for f in all_findings():
+        rp = f.get('replay') or {}
+        if f.get('status') != 'open' and 'table' in rp:
+            out.append(dict(rp, src='fixed:' + str(f.get('id'))))
+    return out
+
+
 def open_findings():
-    fs = [f for f in common.known_findings(PROP)]
+    """Only entries whose status is exactly 'open' are carve-outs."""
+    fs = all_findings()
     if os.environ.get('C15_DEV_KNOWN') == '1' and os.path.exists(DEV_KNOWN):
         have = {f['id'] for f in fs}
         fs += [f for f in json.load(open(DEV_KNOWN))['findings'] if f['property'] == PROP and f['id'] not in have]
@@ -384,6 +402,7 @@ def check(tier, seed):
             rp = f.get('replay') or {}
             if 'table' in rp:
                 cases.append(dict(rp, src='known:' + f['id']))
+        cases += fixed_replays()                         # fixed findings: plain cases, nothing excused
         cases += generate(tier, rng)
         keep, bad_holds, bad_corr, repro = run_cases(run, wd, 'cases', cases, st, opens)
         for i in bad_holds[:3]:
@@ -427,7 +446,7 @@ def check(tier, seed):
         for _, r in keep:
             o = r.get('exc', 'ok')
             outcomes[o] = outcomes.get(o, 0) + 1
-        run.cov['rule'] = ('weight tables: corpus + open-finding replays; every table up to 3x3 over seven 3-value domains '
+        run.cov['rule'] = ('weight tables: corpus + replays of the open and the fixed findings; every table up to 3x3 over seven 3-value domains '
                            'incl. the missing pair (thorough: all; quick: all up to 5 cells, 35% of the 6-cell and 150 of '
                            'the 9-cell tables per domain); random tables up to 5x5 (thorough 6x6) - ties, signed, wide, bool, '
                            'dyadic floats, rectangular, sparse; empty / all-missing / mixed-type tables; int weights around '
